@@ -6,9 +6,10 @@ Model of the text-format parser of prometheus_client/parser.py on top of the sca
 Every raising site is explicit with its Python class.  `int()` / `float()` are parameters (`pyInt`, `pyFloat`, the
 latter returning the bit pattern of the double); the timestamp `_parse_value(values[-1]) / 1000` is kept symbolic
 (`TsMs num` means `num / 1000`, Python true division) — the only thing modelled about the division is where it raises
-(`OverflowError` for an int too large for a double).
+(`OverflowError` for an int too large for a double, which `_parse_value_and_timestamp` catches and re-raises as ValueError).
 -/
 import PromVerif.Model.ParseCore
+import PromVerif.Generated.TextParse
 
 namespace PromVerif.Model.TextParse
 open PromVerif.Py PromVerif.Model.Validation PromVerif.Model.ParseCore
@@ -57,9 +58,13 @@ def splitOnChar (sep : Char) : Str → List Str
 rounded quotient is not a finite double, i.e. `|n| / 1000 ≥ 2^1024 − 2^970` -/
 def intDivOverflows (n : Int) : Bool := decide (n.natAbs ≥ (2 ^ 1024 - 2 ^ 970) * 1000)
 
-/-- `x / 1000` for the result of `_parse_value`; float / int never raises -/
+/-- `x / 1000` for the result of `_parse_value`; float / int never raises; the OverflowError of int / int is turned into
+ValueError when the source has the `try … except OverflowError: raise ValueError` around it (re-extracted on every run) -/
 def divThousand : Num → PyM TsMs
-  | .int n => if intDivOverflows n then .error .overflowError else .ok ⟨.int n⟩
+  | .int n =>
+    if intDivOverflows n then
+      .error (if PromVerif.Generated.TextParse.tsOverflowToValueError then .valueError else .overflowError)
+    else .ok ⟨.int n⟩
   | .flt b => .ok ⟨.flt b⟩
 
 /-- `_parse_value_and_timestamp(s)` -/
